@@ -2,6 +2,9 @@ import Exetera.Lemmas.JoinFlatSession
 import Exetera.Lemmas.JoinFlatSwap
 import Exetera.Lemmas.JoinFlatIndex
 import Exetera.Lemmas.JoinFlatDec
+import Exetera.Lemmas.C19Session
+import Exetera.Lemmas.C19Pandas
+import Exetera.Lemmas.C19Join
 /-!
 # C19 — Session-level merge and join helpers agree with relational join semantics
 
@@ -78,13 +81,10 @@ example : innerResultSize [1, 1, 2, 4, 4, 5] [1, 2, 2, 4, 6] = .ok 6 := by decid
     the call that is not the streamed one (ndarray or Field arguments; no sinks or Field sinks; any chunk size) succeeds
     and returns / writes exactly `cols`.
 
-    `_partial`: the full statements `ordered_merge_left_correct` and `forms_agree` also cover (a) the streamed form
-    (`streamable c = true`: all arguments Fields and a map field given) for every chunk size `cs ≥ 1`, (b) ndarray sinks,
-    (c) indexed-string payloads. Missing for (a) are the two refinement lemmas
-    `streamedOld L R inv cs = generateLeft false L R (zeros) inv` and
-    `mapValidStreamOld xs m inv cs 0 = mapValid xs m none inv 0` (monotone in-range maps), for (b) the rows lemma of
-    `map_valid` with a zero-initialised result; the correspondence run checks both on the exhaustive scope for chunk sizes
-    1..6 and 1<<20. (c) is false as found (open finding NC19d, `Witness.C19.nc19d_indexed_payload_rejected`). -/
+    `_partial`: superseded by `ordered_merge_left_correct` / `forms_agree` below, which also cover (a) the streamed form
+    (`streamable c = true`: all arguments Fields and a map field given) for every chunk size `cs ≥ 1` and (b) ndarray
+    sinks; kept because obligations are never deleted. Still excluded everywhere: (c) indexed-string payloads — false as
+    found (open finding NC19d, `Witness.C19.nc19d_indexed_payload_rejected`). -/
 theorem ordered_merge_left_correct_partial (lu : Bool) {L R : List Int} (xss : List (List Int))
     (hL : Sorted L) (hR : R.Pairwise (· < ·)) (hlu : lu = true → L.Pairwise (· < ·))
     (hne : xss ≠ []) (hlen : ∀ xs ∈ xss, xs.length = R.length) :
@@ -136,6 +136,117 @@ example : orderedMergeLeft 2 ⟨true, true, .fields, true⟩ false true [1, 2, 2
     .ok ⟨none, [[0, 11, 11, 14, 20, 20, 0, 23]], some (encR INVALID_INDEX (leftJoin [1, 2, 2, 3, 5, 5, 6, 9] [2, 3, 4, 5, 9]))⟩ := by
   decide
 
+/-! ### every form: array, Field, Field sinks, ndarray sinks, streamed with every chunk size -/
+
+/-- **ordered_merge_left is the relational left join of the payloads — every form of the call.** For sorted keys, a
+    duplicate-free right column (`right_unique=True`; `left_unique` only if the left column is duplicate-free too) and
+    numeric payload columns of the right table there is ONE list of columns `cols` — column `k` is payload `k` mapped
+    through the relational left join: row `r` is the payload at the unique right row whose key equals left key `r`, the
+    empty value `0` if there is none (`Spec.mapSpec` over the right column of `Spec.leftJoin`) — such that, whatever the
+    chunk size `cs` and whether keys / sources are ndarrays or Fields,
+    * without sinks the call returns `cols`;
+    * with Field sinks and no map field (not streamed) it writes `cols`;
+    * with zero-initialised ndarray sinks (`np.zeros(len(left_on))`, one per payload) it writes `cols`;
+    * the STREAMED form (all arguments Fields, Field sinks, a map field), for every chunk size `cs ≥ 1` of the legacy
+      drivers `generate_ordered_map_to_left_right_unique_streamed_old` / `ordered_map_valid_stream_old`, writes `cols` and
+      leaves the relational join map in the map field. The streamed form needs `len(right) ≤ INVALID_INDEX = 2^62` (the
+      marker must not be a row number of the source; `ordered_map_valid_stream_old` does not test the entry that makes it
+      fetch the next source chunk against the marker).
+    `.ok` means: no out-of-bounds access, no `'i' has got ahead` / `StopIteration`, every loop ends within its fuel.
+    Not covered: indexed-string payloads (open finding NC19d). -/
+theorem ordered_merge_left_correct (lu : Bool) {L R : List Int} (xss : List (List Int))
+    (hL : Sorted L) (hR : R.Pairwise (· < ·)) (hlu : lu = true → L.Pairwise (· < ·))
+    (hne : xss ≠ []) (hlen : ∀ xs ∈ xss, xs.length = R.length) :
+    ∃ cols, MappedCols (encR INVALID_INDEX (leftJoin L R)) INVALID_INDEX xss cols ∧
+      ∀ (cs : Nat) (c : Cfg),
+        (c.sinks = .none → orderedMergeLeft cs c lu true L R (xss.map .numeric) = .ok ⟨some cols, [], none⟩) ∧
+        (c.sinks = .fields → streamable c = false →
+          orderedMergeLeft cs c lu true L R (xss.map .numeric) = .ok ⟨none, cols, none⟩) ∧
+        (c.sinks = zeroArrays L.length xss.length →
+          orderedMergeLeft cs c lu true L R (xss.map .numeric) = .ok ⟨none, cols, none⟩) ∧
+        (streamable c = true → 1 ≤ cs → (R.length : Int) ≤ INVALID_INDEX →
+          orderedMergeLeft cs c lu true L R (xss.map .numeric) =
+            .ok ⟨none, cols, some (encR INVALID_INDEX (leftJoin L R))⟩) :=
+  orderedMergeLeft_all lu xss hL hR hlu hne hlen
+
+/-- `ordered_merge_right`, every form: `ordered_merge_left` with the sides (and the flags) swapped — one row per right
+    row, payloads from the left table, whose key column must be the duplicate-free one. -/
+theorem ordered_merge_right_correct (ru : Bool) {L R : List Int} (xss : List (List Int))
+    (hL : L.Pairwise (· < ·)) (hR : Sorted R) (hru : ru = true → R.Pairwise (· < ·))
+    (hne : xss ≠ []) (hlen : ∀ xs ∈ xss, xs.length = L.length) :
+    ∃ cols, MappedCols (encR INVALID_INDEX (leftJoin R L)) INVALID_INDEX xss cols ∧
+      ∀ (cs : Nat) (c : Cfg),
+        (c.sinks = .none → orderedMergeRight cs c true ru L R (xss.map .numeric) = .ok ⟨some cols, [], none⟩) ∧
+        (c.sinks = .fields → streamable c = false →
+          orderedMergeRight cs c true ru L R (xss.map .numeric) = .ok ⟨none, cols, none⟩) ∧
+        (c.sinks = zeroArrays R.length xss.length →
+          orderedMergeRight cs c true ru L R (xss.map .numeric) = .ok ⟨none, cols, none⟩) ∧
+        (streamable c = true → 1 ≤ cs → (L.length : Int) ≤ INVALID_INDEX →
+          orderedMergeRight cs c true ru L R (xss.map .numeric) =
+            .ok ⟨none, cols, some (encR INVALID_INDEX (leftJoin R L))⟩) :=
+  orderedMergeLeft_all ru xss hR hL hru hne hlen
+
+/-- **the array, Field and streamed forms of the same call return the same values.** Two `ordered_merge_left` calls on the
+    same keys and payloads that differ in the form of their arguments (ndarray / Field keys and sources; no sinks, Field
+    sinks or zero-initialised ndarray sinks; with or without the map field, i.e. streamed or not) and in the chunk size of
+    the streamed helpers (any `cs ≥ 1`) both succeed and return / write the same columns (`FormOK`: the forms listed in
+    `ordered_merge_left_correct`). -/
+theorem forms_agree (cs₁ cs₂ : Nat) (c₁ c₂ : Cfg) (lu : Bool) {L R : List Int} (xss : List (List Int))
+    (h₁ : FormOK cs₁ c₁ L.length xss.length R.length) (h₂ : FormOK cs₂ c₂ L.length xss.length R.length)
+    (hL : Sorted L) (hR : R.Pairwise (· < ·)) (hlu : lu = true → L.Pairwise (· < ·))
+    (hne : xss ≠ []) (hlen : ∀ xs ∈ xss, xs.length = R.length) :
+    ∃ o₁ o₂, orderedMergeLeft cs₁ c₁ lu true L R (xss.map .numeric) = .ok o₁ ∧
+      orderedMergeLeft cs₂ c₂ lu true L R (xss.map .numeric) = .ok o₂ ∧
+      o₁.returned.getD o₁.sinks = o₂.returned.getD o₂.sinks := by
+  obtain ⟨cols, _, h⟩ := orderedMergeLeft_any lu xss hL hR hlu hne hlen
+  obtain ⟨o₁, a1, b1, _⟩ := h cs₁ c₁ h₁
+  obtain ⟨o₂, a2, b2, _⟩ := h cs₂ c₂ h₂
+  exact ⟨o₁, o₂, a1, a2, b1.trans b2.symm⟩
+
+/-- the same for `ordered_merge_right` -/
+theorem forms_agree_right (cs₁ cs₂ : Nat) (c₁ c₂ : Cfg) (ru : Bool) {L R : List Int} (xss : List (List Int))
+    (h₁ : FormOK cs₁ c₁ R.length xss.length L.length) (h₂ : FormOK cs₂ c₂ R.length xss.length L.length)
+    (hL : L.Pairwise (· < ·)) (hR : Sorted R) (hru : ru = true → R.Pairwise (· < ·))
+    (hne : xss ≠ []) (hlen : ∀ xs ∈ xss, xs.length = L.length) :
+    ∃ o₁ o₂, orderedMergeRight cs₁ c₁ true ru L R (xss.map .numeric) = .ok o₁ ∧
+      orderedMergeRight cs₂ c₂ true ru L R (xss.map .numeric) = .ok o₂ ∧
+      o₁.returned.getD o₁.sinks = o₂.returned.getD o₂.sinks :=
+  forms_agree cs₁ cs₂ c₁ c₂ ru xss h₁ h₂ hR hL hru hne hlen
+
+/-- the two refinements the streamed form rests on, as statements about the legacy drivers themselves: for every chunk
+    size ≥ 1 the streamed left map is the flat kernel's map … -/
+theorem streamed_old_left_map_eq_flat {L R : List Int} (inv : Int) {cs : Nat} (hcs : 1 ≤ cs) (hL : Sorted L)
+    (hR : R.Pairwise (· < ·)) :
+    ∃ u u', streamedOld L R inv cs = .ok (u, encR inv (leftJoin L R)) ∧
+      generateLeft false L R (List.replicate L.length 0) inv = .ok (u', encR inv (leftJoin L R)) := by
+  obtain ⟨u, h⟩ := streamedOld_eq inv hcs hL hR
+  obtain ⟨u', h'⟩ := generateLeft_eq false (List.replicate L.length 0) inv hL hR (by simp) (by simp)
+  exact ⟨u, u', h, h'⟩
+
+/-- … and the streamed mapper is `map_valid` (= `Spec.mapSpec`) on every in-range map whose valid entries do not
+    decrease, the marker not being a row number of the source. -/
+theorem streamed_old_map_valid_eq_flat (xs : List Int) (m : List Int) (inv : Int) {cs : Nat} (hcs : 1 ≤ cs)
+    (hr : InRange xs.length m inv) (hmono : ValidMonotone m inv) (hinv : inv < 0 ∨ (xs.length : Int) ≤ inv) :
+    mapValidStreamOld xs m inv cs 0 = MapValid.mapValid xs m none inv 0 ∧
+      ∃ out, mapValidStreamOld xs m inv cs 0 = .ok out ∧ mapSpec xs inv 0 m = some out :=
+  ⟨mapValidStreamOld_eq_mapValid xs m inv 0 hcs hr hmono hinv, mapValidStreamOld_eq xs m inv 0 hcs hr hmono hinv⟩
+
+-- non-vacuity of the new hypotheses: the streamed form with chunk size 2 and zero-initialised ndarray sinks are covered forms
+example : FormOK 2 ⟨true, true, .fields, true⟩ 8 1 5 ∧ streamable ⟨true, true, .fields, true⟩ = true := by
+  refine ⟨⟨Or.inr (Or.inl rfl), fun _ => ⟨by decide, by decide⟩⟩, rfl⟩
+example : FormOK (1 <<< 20) ⟨false, false, zeroArrays 8 1, false⟩ 8 1 5 :=
+  ⟨Or.inr (Or.inr rfl), fun h => by cases h⟩
+example : orderedMergeLeft (1 <<< 20) ⟨false, false, zeroArrays 8 1, false⟩ false true [1, 2, 2, 3, 5, 5, 6, 9] [2, 3, 4, 5, 9]
+    [.numeric [11, 14, 17, 20, 23]] = .ok ⟨none, [[0, 11, 11, 14, 20, 20, 0, 23]], none⟩ := by decide
+example : streamedOld [1, 2, 2, 3, 5, 5, 6, 9] [2, 3, 4, 5, 9] (-1) 1 =
+    .ok (true, encR (-1) (leftJoin [1, 2, 2, 3, 5, 5, 6, 9] [2, 3, 4, 5, 9])) := by decide
+example : encR (-1) (leftJoin [1, 2, 2, 3, 5, 5, 6, 9] [2, 3, 4, 5, 9]) = [-1, 0, 0, 1, 3, 3, -1, 4] := by decide
+example : InRange 5 (encR (-1) (leftJoin [1, 2, 2, 3, 5, 5, 6, 9] [2, 3, 4, 5, 9])) (-1) ∧
+    ValidMonotone (encR (-1) (leftJoin [1, 2, 2, 3, 5, 5, 6, 9] [2, 3, 4, 5, 9])) (-1) :=
+  ⟨inRange_encR _ _ _, validMonotone_encR_leftJoin _ (by simp [Sorted]) (by simp)⟩
+example : mapValidStreamOld [11, 14, 17, 20, 23] [-1, 0, 0, 1, 3, 3, -1, 4] (-1) 2 0 = .ok [0, 11, 11, 14, 20, 20, 0, 23] := by
+  decide
+
 /-! ## `Session.ordered_merge_inner` -/
 
 /-- **inner results list exactly the matching pairs**: for sorted keys and every truthful combination of the
@@ -176,11 +287,106 @@ theorem inner_payloads (lu ru : Bool) {L R : List Int} (lxs rxs : List (List Int
   · simp only [orderedMergeInner, Sinks.count, Option.any_none, Bool.false_eq_true, if_false, e1, e2, hm, mapFields, h1, h3]
   · simp only [orderedMergeInner, Sinks.count, Option.any_none, Bool.false_eq_true, if_false, e1, e2, hm, mapFields, h1, h3]
 
+/-- `ordered_merge_inner`, every form of the sinks: the same columns are returned (no sinks), written to Field sinks, or
+    written to zero-initialised ndarray sinks of the join's length (`np.zeros(ordered_inner_map_result_size(...))`). -/
+theorem inner_payloads_all_forms (lu ru : Bool) {L R : List Int} (lxs rxs : List (List Int)) (hL : Sorted L) (hR : Sorted R)
+    (hlu : lu = true → L.Pairwise (· < ·)) (hru : ru = true → R.Pairwise (· < ·))
+    (hl : ∀ xs ∈ lxs, xs.length = L.length) (hr : ∀ xs ∈ rxs, xs.length = R.length) (hln : lxs ≠ []) (hrn : rxs ≠ []) :
+    ∃ lcols rcols,
+      MappedCols (encodeInner (innerJoin L R)).1 INVALID_INDEX lxs lcols ∧
+      MappedCols (encodeInner (innerJoin L R)).2 INVALID_INDEX rxs rcols ∧
+      orderedMergeInner lu ru L R (lxs.map .numeric) .none (rxs.map .numeric) .none =
+        .ok ⟨⟨some lcols, [], none⟩, ⟨some rcols, [], none⟩⟩ ∧
+      orderedMergeInner lu ru L R (lxs.map .numeric) .fields (rxs.map .numeric) .fields =
+        .ok ⟨⟨none, lcols, none⟩, ⟨none, rcols, none⟩⟩ ∧
+      orderedMergeInner lu ru L R (lxs.map .numeric) (zeroArrays (innerJoin L R).length lxs.length)
+          (rxs.map .numeric) (zeroArrays (innerJoin L R).length rxs.length) =
+        .ok ⟨⟨none, lcols, none⟩, ⟨none, rcols, none⟩⟩ := by
+  have hm := inner_lists_exactly_pairs lu ru hL hR hlu hru
+  obtain ⟨lcols, h1, h2⟩ := mapM_mapValid (encodeInner (innerJoin L R)).1 INVALID_INDEX L.length
+    (inRange_inner_left L R INVALID_INDEX) lxs hl
+  obtain ⟨rcols, h3, h4⟩ := mapM_mapValid (encodeInner (innerJoin L R)).2 INVALID_INDEX R.length
+    (inRange_inner_right L R INVALID_INDEX) rxs hr
+  have e1 : (lxs.map Payload.numeric).isEmpty = false := by
+    cases lxs with
+    | nil => exact absurd rfl hln
+    | cons x xs => rfl
+  have e2 : (rxs.map Payload.numeric).isEmpty = false := by
+    cases rxs with
+    | nil => exact absurd rfl hrn
+    | cons x xs => rfl
+  have a1 := mapM_arrays (encodeInner (innerJoin L R)).1 INVALID_INDEX lxs
+  have a2 := mapM_arrays (encodeInner (innerJoin L R)).2 INVALID_INDEX rxs
+  have l1 : (encodeInner (innerJoin L R)).1.length = (innerJoin L R).length := by simp [encodeInner]
+  have l2 : (encodeInner (innerJoin L R)).2.length = (innerJoin L R).length := by simp [encodeInner]
+  rw [l1, h1] at a1
+  rw [l2, h3] at a2
+  refine ⟨lcols, rcols, h2, h4, ?_, ?_, ?_⟩
+  · simp only [orderedMergeInner, Sinks.count, Option.any_none, Bool.false_eq_true, if_false, e1, e2, hm, mapFields, h1, h3]
+  · simp only [orderedMergeInner, Sinks.count, Option.any_none, Bool.false_eq_true, if_false, e1, e2, hm, mapFields, h1, h3]
+  · simp only [orderedMergeInner, zeroArrays, Sinks.count, Option.any_some, List.length_replicate, List.length_map,
+      bne_self_eq_false, Bool.false_eq_true, if_false, e1, e2, hm, mapFields, a1, a2]
+
+example : orderedMergeInner false false [1, 1, 2, 4, 4, 5] [1, 2, 2, 4, 6] [.numeric [11, 14, 17, 20, 23, 26]] (zeroArrays 6 1)
+    [.numeric [7, 10, 13, 16, 19]] (zeroArrays 6 1) =
+    .ok ⟨⟨none, [[11, 14, 17, 17, 20, 23]], none⟩, ⟨none, [[7, 7, 10, 13, 16, 16]], none⟩⟩ := by decide
+
 example : innerMaps false false [1, 1, 2, 4, 4, 5] [1, 2, 2, 4, 6] = .ok (encodeInner (innerJoin [1, 1, 2, 4, 4, 5] [1, 2, 2, 4, 6])) := by
   decide
 -- the swapped combination on a concrete input (duplicates on the left, right duplicate-free)
 example : innerMaps false true [1, 1, 2, 4, 4, 5] [1, 2, 4, 6] = .ok (encodeInner (innerJoin [1, 1, 2, 4, 4, 5] [1, 2, 4, 6])) := by
   decide
+
+/-! ## `Session.merge_left` / `merge_right` / `merge_inner` (the join itself is `pandas.merge`, a parameter) -/
+
+/-- **merge_left maps the payloads through the rows pandas returned.** Whatever row pairs `pandas.merge(how='left')`
+    returns for the two key columns (any order of keys, duplicates allowed; right rows in range), every payload column of
+    the right table — numeric or indexed string — comes back as `Spec.mapSpec` / `Spec.mapIndexedSpec` through the right
+    column of exactly those rows: row `r` is the payload at the partner row, the empty value (0 / empty string) where the
+    left row has no partner. The same values are returned or written to the writers. -/
+theorem merge_left_maps_pandas_rows (pd : List Int → List Int → List (Nat × Option Nat)) (L R : List Int)
+    (ps : List Payload) (hrows : ∀ p ∈ pd L R, ∀ j, p.2 = some j → j < R.length)
+    (hps : ∀ p ∈ ps, PayloadOK R.length p) :
+    ∃ outs, mergeLeft pd L R ps = .ok outs ∧ MappedPayloads (encR NAN_AS_INT (pd L R)) NAN_AS_INT ps outs :=
+  mergeLeft_rows pd L R ps hrows hps
+
+/-- … so under the recorded assumption that `pandas.merge(how='left')` returns the relational left join, `merge_left`
+    returns the payload values of `Spec.leftJoin` (keys in ANY order, duplicates on either side). -/
+theorem merge_left_relational (pd : List Int → List Int → List (Nat × Option Nat)) (L R : List Int)
+    (ps : List Payload) (hpd : pd L R = leftJoin L R) (hps : ∀ p ∈ ps, PayloadOK R.length p) :
+    ∃ outs, mergeLeft pd L R ps = .ok outs ∧ MappedPayloads (encR NAN_AS_INT (leftJoin L R)) NAN_AS_INT ps outs := by
+  have := mergeLeft_rows pd L R ps (by
+    intro p hp j hj
+    rw [hpd] at hp
+    exact leftJoinFrom_bound R L 0 p hp j hj) hps
+  rwa [hpd] at this
+
+/-- `merge_right` is `merge_left` with the tables swapped (`pandas.merge(left=r_df, right=l_df, how='left')`). -/
+theorem merge_right_relational (pd : List Int → List Int → List (Nat × Option Nat)) (L R : List Int)
+    (ps : List Payload) (hpd : pd R L = leftJoin R L) (hps : ∀ p ∈ ps, PayloadOK L.length p) :
+    ∃ outs, mergeRight pd L R ps = .ok outs ∧ MappedPayloads (encR NAN_AS_INT (leftJoin R L)) NAN_AS_INT ps outs :=
+  merge_left_relational pd R L ps hpd hps
+
+/-- **merge_inner maps both tables' payloads through the pairs pandas returned**; under the recorded assumption that
+    `pandas.merge(how='inner')` returns the matching pairs of `Spec.innerJoin` in some order (pandas does not keep the
+    order of duplicate right rows: a permutation) the two results list, row by row, the payloads of the left and of the
+    right member of each pair (`-1` never occurs in the maps, so no row is a marker). -/
+theorem merge_inner_maps_pandas_rows (pdi : List Int → List Int → List (Nat × Nat)) (L R : List Int)
+    (lps rps : List Payload) (hpd : (pdi L R).Perm (innerJoin L R))
+    (hl : ∀ p ∈ lps, PayloadOK L.length p) (hr : ∀ p ∈ rps, PayloadOK R.length p) :
+    ∃ louts routs, mergeInner pdi L R lps rps = .ok (louts, routs) ∧
+      MappedPayloads ((pdi L R).map (fun p => (p.1 : Int))) (-1) lps louts ∧
+      MappedPayloads ((pdi L R).map (fun p => (p.2 : Int))) (-1) rps routs :=
+  mergeInner_rows pdi L R lps rps (by
+    intro p hp
+    have := innerJoinFrom_bound R L 0 p (hpd.mem_iff.mp hp)
+    omega) hl hr
+
+-- non-vacuity: unsorted keys with duplicates, a numeric and an indexed-string payload ("a", "", "cc")
+example : PayloadOK 3 (.numeric [11, 14, 17]) ∧ PayloadOK 3 (.indexed [0, 1, 1, 3] [97, 99, 99]) := by
+  refine ⟨rfl, ⟨by decide, by decide, by decide⟩, by decide⟩
+example : mergeLeft (fun l r => leftJoin l r) [5, 3, 5, 8] [3, 5, 3] [.numeric [11, 14, 17], .indexed [0, 1, 1, 3] [97, 99, 99]] =
+    .ok [.numeric [14, 11, 17, 14, 0], .indexed [0, 0, 1, 3, 3, 3] [97, 99, 99]] := by decide
 
 /-! ## `Session.get_index` -/
 
@@ -197,5 +403,24 @@ theorem get_index_correct (target fk : List Int) (hnd : target.Nodup) (hlen : (t
 example : ([5, 3, 9] : List Int).Nodup := by decide
 example : getIndex [5, 3, 9] [3, 3, 7, 9, 7, 5, 8] =
     [1, 1, INVALID_INDEX, 2, INVALID_INDEX, 0, INVALID_INDEX + 2] := by decide
+
+/-! ## `Session.join` -/
+
+/-- **join**: `values_to_join` carries one value per run of `fkey_indices` (`runKeys`: the key of every run of equal
+    adjacent entries). If every key is a row number of the destination (or a marker `≥ INVALID_INDEX`, which is dropped)
+    and the rows of each key are contiguous (one run per key), the result — in the space of the destination primary
+    key — holds at row `k` the value of the run with key `k` and the empty value `0` at every row no foreign key points
+    to. No out-of-bounds access. -/
+theorem join_correct (destLen : Nat) (fkey values : List Int) (hlen : (runKeys fkey).length = values.length)
+    (hnd : (runKeys fkey).Nodup) (hr : ∀ k ∈ fkey, k < INVALID_INDEX → 0 ≤ k ∧ k < destLen) :
+    ∃ out, join destLen fkey values = .ok out ∧ out.length = destLen ∧
+      (∀ (r : Nat) (k v : Int), (runKeys fkey)[r]? = some k → values[r]? = some v → k < INVALID_INDEX →
+        out[k.toNat]? = some v) ∧
+      (∀ d : Nat, d < destLen → (d : Int) ∉ fkey → out[d]? = some 0) :=
+  join_spec destLen fkey values hlen hnd hr
+
+example : runKeys [2, 2, 0, 0, 0, INVALID_INDEX, 3] = [2, 0, INVALID_INDEX, 3] ∧
+    (runKeys [2, 2, 0, 0, 0, INVALID_INDEX, 3]).Nodup := by decide
+example : join 5 [2, 2, 0, 0, 0, INVALID_INDEX, 3] [7, 8, 9, 10] = .ok [8, 0, 7, 10, 0] := by decide
 
 end Exetera.Props.C19
